@@ -837,6 +837,13 @@ class RTDCBase(abc.ABC):
                 warnings.warn(f"Encountered unsupported basin "
                               f"format '{bdict['format']}'!")
                 continue
+            if (bdict["type"] in ["file", "internal", "remote"]
+                    and bc[bdict["format"]].basin_type != bdict["type"]):
+                # Do not instantiate e.g. a local hdf5 basin for a definition
+                # that claims to be of type "remote" or "internal".
+                warnings.warn(f"Basin format '{bdict['format']}' does not "
+                              f"match basin type '{bdict['type']}'!")
+                continue
             if "key" in bdict and bdict["key"] in self._basins_ignored:
                 warnings.warn(
                     f"Encountered cyclic basin dependency '{bdict['key']}'",
